@@ -68,6 +68,20 @@ fn decode_seq_len<R: Read>(reader: &mut R) -> AvroResult<usize> {
     )
 }
 
+/// Create a decimal from its two's-complement big-endian representation.
+///
+/// Zero bytes are not a two's-complement number, such a decimal could not be written back.
+fn decimal_from_bytes(bytes: Vec<u8>) -> AvroResult<Value> {
+    if bytes.is_empty() {
+        return Err(Details::SignExtend {
+            requested: 0,
+            needed: 1,
+        }
+        .into());
+    }
+    Ok(Value::Decimal(Decimal::from(bytes)))
+}
+
 /// Decode a `Value` from avro format given its `Schema`.
 pub fn decode<R: Read>(schema: &Schema, reader: &mut R) -> AvroResult<Value> {
     let rs = ResolvedSchema::try_from(schema)?;
@@ -101,13 +115,13 @@ pub(crate) fn decode_internal<R: Read, S: Borrow<Schema>>(
                     enclosing_namespace,
                     reader,
                 )? {
-                    Value::Fixed(_, bytes) => Ok(Value::Decimal(Decimal::from(bytes))),
+                    Value::Fixed(_, bytes) => decimal_from_bytes(bytes),
                     value => Err(Details::FixedValue(value).into()),
                 }
             }
             InnerDecimalSchema::Bytes => {
                 match decode_internal(&Schema::Bytes, names, enclosing_namespace, reader)? {
-                    Value::Bytes(bytes) => Ok(Value::Decimal(Decimal::from(bytes))),
+                    Value::Bytes(bytes) => decimal_from_bytes(bytes),
                     value => Err(Details::BytesValue(value).into()),
                 }
             }
